@@ -310,7 +310,12 @@ func judge(c *Case) outcome {
 	}
 	folded := isFolded(m)
 	if ok, msg := compare(c, got); !ok {
-		return outcome{check: "const-value", msg: "constant program: " + msg, folded: folded}
+		so := secondOpinion(c)
+		if strings.Contains(so, "SPIR-V back end") && ev.Excluded("spv.const.alias") {
+			// root cause is the open SPIR-V finding C01-8 (constants without inline value are emitted as null)
+			return outcome{ok: true, unsup: "known:spirv-const-null"}
+		}
+		return outcome{check: "const-value", msg: "constant program: " + msg + so, folded: folded}
 	}
 	if c.PRun != "" {
 		got2, rej2, unsup2, bad2, _ := execute(c.PRun, c, map[spv.Key]string{{Set: 0, Binding: 1}: c.RunInput})
@@ -373,11 +378,15 @@ func judgeCase(raw json.RawMessage) (bool, string) {
 func TestPropConst(t *testing.T) {
 	ev.Rule("constant-expression trees (depth<=5) over abstract-int/float, i32, u32, f32, bool literals and named module constants: all operators, foldable builtins, conversions, constructors, swizzles, scalar and vector shapes, boundary operands; each placed at one of 11 sites (module const typed/inferred, fn const, let, var init, argument, store, array size, case selector, const_assert, workgroup_size); oracle: independent const-evaluator (abstract ints in 64 bits, floats in binary64, WGSL conversion rank) vs the value observed by executing the compiled program with the independent SPIR-V interpreter; fully concrete trees are also compiled as a run-time twin (leaves loaded from a buffer) which must give the same value; expressions WGSL makes an error (integer division by zero, value not representable) must be rejected; non-trivial = >= 2 operator/builtin nodes and the lowered IR stores a literal/constant; distinct = hash(expr, site)")
 	ev.Assume("wrap-around of concrete i32/u32 const arithmetic, over-wide const shifts and non-finite float const results are not judged (skipped)")
+	wgen.ForceConstSite = os.Getenv("C06_SITE")
 	rapid.Check(t, func(t *rapid.T) {
-		cc := wgen.GenConstCase(t, ev.Excluded)
+		cc := wgen.GenConstCase(t, func(tag string) bool { return ev.Excluded(tag) || ev.Excluded("spv."+tag) })
 		c, ok := build(cc)
 		if !ok {
 			ev.Class("skipped:unspecified")
+			return
+		}
+		if c.Class == "must-reject" && strings.Contains(c.Why, "not representable") && ev.Excluded("const.unrepresentable") {
 			return
 		}
 		o := judge(c)
@@ -441,4 +450,24 @@ func survKey(msg string) string {
 		m = m[:90]
 	}
 	return m
+}
+
+// secondOpinion executes the constant program through the GLSL backend and
+// the GLSL interpreter to tell a front-end (folding) defect from a SPIR-V
+// back-end defect.
+func secondOpinion(c *Case) string {
+	xc := &xrun.Case{WGSL: c.PConst, Entry: "main", NumWG: [3]uint32{1, 1, 1}, Buffers: map[string]string{"0,0": c.OutInit},
+		Expected: map[string]string{"0,0": c.Expected}, Masks: map[string]string{"0,0": c.Mask}, RefSteps: 1000, Opts: map[string]string{"glsl": "450"}}
+	if c.ConstInput != "" {
+		xc.Buffers["0,2"] = c.ConstInput
+	}
+	o := xrun.RunGLSL(xc)
+	switch {
+	case o.Rejected != "" || o.Unsupported != "" || o.Invalid != "" || o.Bad != "":
+		return " [second opinion via GLSL unavailable]"
+	}
+	if ok, _ := xc.Compare(o.Buffers); ok {
+		return " [the GLSL output gives the WGSL value: the SPIR-V back end mis-emits the constant]"
+	}
+	return " [the GLSL output is wrong too: front-end constant evaluation]"
 }
